@@ -7,6 +7,12 @@
 //!        `r <seed> <VX value>`   read direction: from_str(jspell(v, seed)) must equal v in every component;
 //!                                the reference reader must read the document as v too; the visitor model
 //!                                (`C05 jdec J`) must agree with the implementation on it
+//!        `x <hex JSON text>`     correspondence only (these are NOT Hayson documents: nothing is demanded of the
+//!                                outcome): objects tagged marker/remove/na with further members before and/or
+//!                                after `_kind`.  `visit_map` returns at `_kind` and serde_json refuses the map unless
+//!                                nothing is left in it.  The model gets the members in the order the entry point
+//!                                visits them: document order for from_str/from_slice, key order (last duplicate
+//!                                wins) for from_value.
 
 use crate::ctx::{CaseOut, Ctx};
 use crate::gen::{self, Cfg};
@@ -85,7 +91,151 @@ pub fn exec(_label: &str, input: &str, out: &mut CaseOut) {
                 }
             }
         }
+        "x" => {
+            let text = match vx::unh(rest) {
+                Some(t) => t,
+                None => return out.fail("harness", "unparsable hex input".into()),
+            };
+            let j = match jtok::parse(&text) {
+                Some(j) => j,
+                None => return out.fail("harness", format!("the generated text is not JSON: {text}")),
+            };
+            out.nontrivial = true;
+            out.stat("x:early");
+            let reply_of = |r: Result<Value, serde_json::Error>| match r {
+                Ok(v) => format!("ok {}", vx::show(&v)),
+                Err(_) => "err".to_string(),
+            };
+            // text entry points: members in document order
+            let r_str = reply_of(serde_json::from_str::<Value>(&text));
+            let r_slice = reply_of(serde_json::from_slice::<Value>(text.as_bytes()));
+            out.stat(if r_str == "err" { "x:str:err" } else { "x:str:ok" });
+            if r_str != r_slice {
+                out.fail("entry_points", format!("from_str gives {r_str}, from_slice gives {r_slice} on {text}"));
+            }
+            out.req(format!("C05 jdec {}", jtok::show_request(&j)), r_str);
+            // tree entry point: serde_json::Value keeps its members in key order, the last duplicate wins
+            match serde_json::from_str::<serde_json::Value>(&text) {
+                Ok(tree) => {
+                    let r_val = reply_of(serde_json::from_value::<Value>(tree));
+                    out.stat(if r_val == "err" { "x:value:err" } else { "x:value:ok" });
+                    out.req(format!("C05 jdec {}", jtok::show_request(&key_order(&j))), r_val);
+                }
+                Err(e) => out.fail("harness", format!("serde_json::Value rejects {text}: {e}")),
+            }
+        }
         _ => out.fail("harness", format!("unknown mode {mode}")),
+    }
+}
+
+/// the document as `serde_json::Value` holds it (no `preserve_order`): members of every object sorted by key,
+/// of members with the same key the last one
+fn key_order(j: &jtok::J) -> jtok::J {
+    use jtok::J;
+    match j {
+        J::Arr(v) => J::Arr(v.iter().map(key_order).collect()),
+        J::Obj(m) => {
+            let mut map: std::collections::BTreeMap<String, J> = std::collections::BTreeMap::new();
+            for (k, v) in m {
+                map.insert(k.clone(), key_order(v));
+            }
+            J::Obj(map.into_iter().collect())
+        }
+        other => other.clone(),
+    }
+}
+
+/// members added beside the `_kind` of every marker/remove/na object of a document, at random positions
+fn inject(rng: &mut Rng, j: &jtok::J) -> jtok::J {
+    use jtok::J;
+    match j {
+        J::Arr(v) => J::Arr(v.iter().map(|e| inject(rng, e)).collect()),
+        J::Obj(m) => {
+            let early = m.iter().any(|(k, v)| k == "_kind" && matches!(v, J::Str(s) if s == "marker" || s == "remove" || s == "na"));
+            let mut out: Vec<(String, J)> = m.iter().map(|(k, v)| (k.clone(), inject(rng, v))).collect();
+            if early && rng.chance(3, 4) {
+                let n = 1 + rng.below(2);
+                for _ in 0..n {
+                    // keys that sort before `_kind` (upper case, digits) and after it (lower case)
+                    let key = rng.pick(&["A", "Zz", "0", "a", "x", "val", "dis"]).to_string();
+                    if out.iter().any(|(k, _)| *k == key) {
+                        continue;
+                    }
+                    let val = match rng.below(5) {
+                        0 => J::Num("1".into()),
+                        1 => J::Str("s".into()),
+                        2 => J::Obj(vec![("_kind".into(), J::Str("marker".into()))]),
+                        3 => J::Obj(vec![("_kind".into(), J::Null)]), // does not decode
+                        _ => J::Arr(vec![J::Bool(true)]),
+                    };
+                    let at = rng.below(out.len() as u64 + 1) as usize;
+                    out.insert(at, (key, val));
+                }
+            }
+            J::Obj(out)
+        }
+        other => other.clone(),
+    }
+}
+
+fn early_cases(ctx: &mut Ctx) {
+    // every arrangement of extra members around `_kind`, for the three kinds, in four contexts
+    let extras: [(&str, &str); 9] = [
+        ("", ""),
+        ("", r#","x":1"#),
+        ("", r#","A":1"#),
+        (r#""x":1,"#, ""),
+        (r#""A":1,"#, ""),
+        (r#""A":1,"#, r#","x":1"#),
+        (r#""A":{"_kind":null},"#, ""),
+        ("", r#","x":{"_kind":null}"#),
+        (r#""A":{"_kind":"marker","b":1},"#, ""),
+    ];
+    for kind in ["marker", "remove", "na"] {
+        for (before, after) in extras {
+            let d = format!(r#"{{{before}"_kind":"{kind}"{after}}}"#);
+            let docs = [
+                d.clone(),
+                format!("[{d},1]"),
+                format!(r#"{{"t":{d},"u":1}}"#),
+                format!(r#"{{"_kind":"dict","t":{d}}}"#),
+                format!(r#"{{"_kind":"grid","cols":[{{"name":"a"}}],"rows":[{{"a":{d}}}]}}"#),
+                format!(r#"{{"_kind":"grid","meta":{{"m":{d}}},"cols":[{{"name":"a","meta":{{"c":{d}}}}}],"rows":[]}}"#),
+            ];
+            for doc in docs {
+                ctx.case("x:fixed", &format!("x {}", vx::h(&doc)));
+            }
+        }
+        // repeated `_kind` members
+        for doc in [
+            format!(r#"{{"_kind":"{kind}","_kind":"{kind}"}}"#),
+            format!(r#"{{"_kind":"{kind}","_kind":"ref","val":"a"}}"#),
+            format!(r#"{{"_kind":"ref","val":"a","_kind":"{kind}"}}"#),
+            format!(r#"{{"_kind":"ref","_kind":"{kind}","val":"a"}}"#),
+        ] {
+            ctx.case("x:fixed", &format!("x {}", vx::h(&doc)));
+        }
+    }
+    let n = ctx.n(600, 20_000);
+    for i in 0..n {
+        let mut rng = ctx.rng.fork();
+        let mut cfg = Cfg::wf(if i % 5 == 0 { 4 } else { 2 });
+        cfg.max_len = 4;
+        // values rich in singletons: lists/dicts/grids of them
+        let v = match i % 4 {
+            0 => Value::List(vec![Value::Marker, Value::Na, gen::value(&mut rng, &cfg), Value::Remove]),
+            1 => Value::Grid(gen::grid(&mut rng, &cfg, 0)),
+            2 => {
+                let mut d = gen::dict(&mut rng, &cfg, 0);
+                d.insert("m".into(), Value::Marker);
+                d.insert("n".into(), Value::Na);
+                Value::Dict(d)
+            }
+            _ => gen::value(&mut rng, &cfg),
+        };
+        let j = jspell::spell(&mut rng, &v);
+        let j2 = inject(&mut rng, &j);
+        ctx.case("x:rand", &format!("x {}", vx::h(&jtok::to_text(&j2))));
     }
 }
 
@@ -134,4 +284,5 @@ pub fn generate(ctx: &mut Ctx) {
             }
         }
     }
+    early_cases(ctx);
 }
